@@ -81,6 +81,8 @@ PANICKING = [
     (r"core::array::(from_fn)$", "skip"),
 ]
 PANICKING = [(re.compile(p), k) for p, k in PANICKING]
+INT_OP_BY_REF = re.compile(r"^<&?(?:'\w+ )?(?:mut )?([iu](?:8|16|32|64|128|size)) as core::ops::(arith|bit)::"
+                           r"(Add|Sub|Mul|Div|Rem|Neg|Shl|Shr|AddAssign|SubAssign|MulAssign|DivAssign|RemAssign|ShlAssign|ShrAssign)\b")
 DIVERGING = re.compile(r"core::panicking::|core::option::(unwrap_failed|expect_failed)|core::result::unwrap_failed|"
                        r"core::slice::index::slice_|core::str::slice_error|std::rt::begin_panic|alloc::raw_vec::capacity_overflow|"
                        r"core::cell::panic_already|std::process::(exit|abort)|alloc::alloc::handle_alloc_error")
@@ -112,6 +114,11 @@ def site_kinds(fn, wrappers):
                 # the outermost user-visible macro names the site
                 name = mac[-1] if mac else last_seg(p)
                 yield ("panic:%s" % name, t[5])
+                continue
+            m_ = INT_OP_BY_REF.match(cal.get("path", ""))
+            if m_:
+                # `a - b` with a reference operand is a call of core's forwarding impl, not a checked BinaryOp: same panics
+                yield ("call:int-arith-by-ref:%s:%s" % (m_.group(3), m_.group(1)), t[5])
                 continue
             if fn_key(cal.get("path", "")) in wrappers:
                 yield ("call:%s" % fn_key(cal.get("path", "")), t[5])
